@@ -35,9 +35,9 @@
 #define SPEC_SX_ISDELIM(c)   ((c) == '(' || (c) == ')' || SPEC_SX_ISSPACE(c))
 
 /* value of a digit character in either letter case; 0 for any other octet */
-#define SPEC_SX_DIGITVAL(c) ((uint64_t)(SPEC_SX_ISDIGIT(c) ? (c) - '0' \
+#define SPEC_SX_DIGITVAL(c) ((uint64_t)((SPEC_SX_ISDIGIT(c) ? (c) - '0' \
   : ((c) >= 'a' && (c) <= 'f') ? (c) - 'a' + 10 \
-  : ((c) >= 'A' && (c) <= 'F') ? (c) - 'A' + 10 : 0))
+  : ((c) >= 'A' && (c) <= 'F') ? (c) - 'A' + 10 : 0) & 15))
 
 /* token classes of looking_at(), same numbering as enum sx_what in sx.c */
 #define SPEC_SX_AT_UNKNOWN 0
@@ -66,18 +66,6 @@ static inline uint64_t spec_sx_value(const char *s, size_t from, size_t to, uint
   return v;
 }
 
-/* ---- proof-side definition of the positional value (contracts/sx.h) ---- */
-#ifndef SX_DMAX
-#define SX_DMAX 24
-#endif
 #define SX_ISBASEDIGIT(base, c) ((base) == 10 ? SPEC_SX_ISDIGIT(c) : SPEC_SX_ISXDIGIT(c))
-#define SX_VTRACE_MEM_OK (__CPROVER_r_ok(g_sxV, (SX_DMAX + 1) * sizeof(uint64_t)) \
-                          && __CPROVER_r_ok(g_sxP, (SX_DMAX + 1) * sizeof(uint64_t)))
-#define SX_VTRACE_OK(V, P, s, d0, e, base) \
-  ((e) - (d0) <= SX_DMAX && (V)[0] == 0 && (P)[0] == 1 \
-   && __CPROVER_forall { size_t k_; (k_ < SX_DMAX) ==> ((k_ < (e) - (d0)) ==> \
-        ((V)[k_ + 1] == (V)[k_] + (P)[k_] * SPEC_SX_DIGITVAL((s)[(e) - 1 - k_]) \
-         && (P)[k_ + 1] == (P)[k_] * (base))) })
-
 
 #endif
